@@ -157,10 +157,20 @@ def run(ctx):
                                   f"(a trial can be pruned before its {param} protection ends)",
                           how="return dominated by the pass edge of the gate", witness=g.witness([r], edges=pass_edges),
                           where=where(prune, r.ast))
-            for t, pk, e in gates:
-                pol = protecting_polarity_ok(e, pk, fld)
+            pols = [(t, pk, e, protecting_polarity_ok(e, pk, fld)) for t, pk, e in gates]
+            understood = [x for x in pols if x[3] is not None]
+            for t, pk, e, pol in pols:
                 if pol is None:
-                    raise AnalysisError(f"R16.2: {cls.name}.prune: gate `{norm(e)[:80]}` on {fld} has an unrecognised shape")
+                    if understood:
+                        continue  # a further test that happens to read the field; the protecting gate is one of the understood ones
+                    # the only gate on this field is neither an order comparison against the bound nor the interval helper
+                    # (whose contract is: the check due at an unreported step is made at the next reported one)
+                    ctx.fail("R16.2", prune.short, f"gate-shape:{fld}",
+                             f"{cls.name}.prune: the only guard on {param} is `{norm(e)[:70]}` - not `measure < bound` and not the shared interval helper "
+                             f"({', '.join(sorted(HELPER_GATES))}): e.g. a remainder test `(step - warmup) % interval != 0` skips a check that falls on a step the "
+                             f"trial did not report instead of postponing it to the next reported step, so with reports at 0, 3, 6, 9, 12 and interval 5 a NaN or "
+                             f"out-of-bounds value is never examined", where=where(prune, t.ast))
+                    continue
                 ctx.check(pol, "R16.2", prune.short, f"gate-direction:{fld}",
                           message=f"{cls.name}.prune: the {param} gate `{norm(e)[:70]}` returns False on the wrong side "
                                   f"(protection is inverted)", how="`measure < / <= bound` (or `not helper`) leads to return False",
